@@ -4,8 +4,12 @@ The `scripted` build of `_canneal` is injected as qubovert.sim._canneal (paths.i
 and the same shared object is opened with ctypes to reach the tape / log arrays of shim/pcg_scripted.c.
 """
 import ctypes
+import os
 
 from . import cbuild, paths
+
+# "scripted" or, in the C17 driver, "scripted_asan"
+VARIANT = os.environ.get("VT_SCRIPTED_VARIANT", "scripted")
 
 MAXLOG = 4096
 _lib = None
@@ -14,8 +18,8 @@ _lib = None
 def lib():
     global _lib
     if _lib is None:
-        paths.import_qubovert("scripted")
-        so = cbuild.build("scripted")
+        paths.import_qubovert(VARIANT)
+        so = cbuild.build(VARIANT)
         L = ctypes.CDLL(so)
         L.vt_reset.restype = None
         _lib = {
